@@ -12,11 +12,17 @@ import (
 	"unicode"
 )
 
+// v2EndsDashed: the text ends in a line that ends in a dash, possibly followed by empty lines: its last word waits for a
+// second half, so whatever follows joins it -- the one way in which a piece of text reaches into the next.
+func v2EndsDashed(b []byte) bool {
+	return v2DashEnded(strings.TrimRight(string(b), "\n"))
+}
+
 // ---- raw line structure and the exempt zone of C05 (hyphen-ended line through the next non-blank line)
 func v2Lines(data []byte) []string { return strings.Split(string(data), "\n") }
 
 func v2DashEnded(ln string) bool {
-	for _, d := range []string{"-", "‒", "–", "—", "‐"} {
+	for _, d := range []string{"-", "‒", "–", "—", "‐", "\u2011", "\u2015", "\u2212"} {
 		if strings.HasSuffix(ln, d) {
 			return true
 		}
@@ -242,6 +248,16 @@ func (vt *v2T) metaInputs(c *v2C, n int) (xs [][]byte, labels []string) {
 		sb.WriteString("\n")
 		xs = append(xs, append([]byte(sb.String()), d.Data...))
 		labels = append(labels, "longnotice/"+d.Key)
+		var pb strings.Builder
+		// notices behind a short prefix (the expression allows one to five characters before the word): the prefix counts
+		// characters, and typographic quotes are three bytes each
+		for _, ln := range []string{"\"(c)\" Copyright 2020 X Corp", "It's Copyright 2019 Y Ltd", "'' Copyright 2018 Z", "\"'\"'\" Copyright 2017 W",
+			"\"\"\"\"\"Copyright 2016 V", "-- '-Copyright (c) 2015 U", "'\"' Copyright (c) [dates of first publication] T"} {
+			pb.WriteString(ln + "\n")
+		}
+		pb.WriteString("\n")
+		xs = append(xs, append([]byte(pb.String()), d.Data...))
+		labels = append(labels, "prefixnotice/"+d.Key)
 	}
 	return
 }
@@ -257,16 +273,22 @@ func (vt *v2T) scenC05() {
 	for xi, x := range xs {
 		ra := vt.match(c, x, v2MatchOpts{})
 		kinds := vt.rng.Perm(len(v2C05Kinds))[:per]
-		if strings.HasPrefix(labels[xi], "longnotice/") {
+		if strings.HasPrefix(labels[xi], "longnotice/") || strings.HasPrefix(labels[xi], "prefixnotice/") {
 			kinds = vt.rng.Perm(len(v2C05Kinds)) // every kind on the few long-notice inputs
 		}
 		for _, ki := range kinds {
+			if strings.HasPrefix(labels[xi], "prefixnotice/") && strings.HasPrefix(v2C05Kinds[ki].kind, "decor:") {
+				continue // a comment marker in front of a prefix that is already there pushes the word beyond the five characters allowed
+			}
 			y, lmap := vt.applyTr(x, v2C05Kinds[ki])
 			rb := vt.match(c, y, v2MatchOpts{})
 			vt.pair(ra, rb, v2C05Kinds[ki].kind, 0, lmap, false, nil, map[string]interface{}{"label": labels[xi], "nolines": false})
 		}
 		// a composition of two kinds
 		k1, k2 := v2C05Kinds[vt.rng.Intn(len(v2C05Kinds))], v2C05Kinds[vt.rng.Intn(len(v2C05Kinds))]
+		if strings.HasPrefix(labels[xi], "prefixnotice/") {
+			k1, k2 = v2C05Kinds[len(v2C05Kinds)-1], v2C05Kinds[0] // typographic, then upper case
+		}
 		y1, m1 := vt.applyTr(x, k1)
 		y2, m2 := vt.applyTr(y1, k2)
 		rb := vt.match(c, y2, v2MatchOpts{})
@@ -538,10 +560,7 @@ func (vt *v2T) scenC11() {
 		// the original is matched first: Normalize registers the words it keeps in the classifier's dictionary, and what
 		// a later call does with them is part of what is compared
 		ra := vt.match(c, x, v2MatchOpts{})
-		cp := v2Spare(x)
-		d0, w0 := len(c.c.docs), len(c.c.dict.words)
-		norm := c.c.Normalize(cp)
-		vt.emit(map[string]interface{}{"ev": "norm", "c": c.id, "unchanged": v2Intact(cp, x), "docs": []int{d0, len(c.c.docs)}, "dict": []int{w0, len(c.c.dict.words)}})
+		norm := vt.normalize(c, x)
 		// Align: line k of the normalized text holds, as Match reads it, the words Match attributes to
 		// line k of the original (Normalize keeps the case of a word's first letter and the original
 		// spelling; both are folded by Match's own tokenisation)
